@@ -397,8 +397,8 @@ theorem flags_idem (s : OpenSt) : s.flags.flags = s.flags := rfl
 theorem fresh_sim (s s' : OpenSt) (h : s.flags = s'.flags) : (fresh s).Sim (fresh s') := ⟨h, h, rfl⟩
 
 theorem openStmts_congr (cfg : OpenCfg) (s s' : OpenSt) (h : s.flags = s'.flags) : openStmts cfg s = openStmts cfg s' := by
-  obtain ⟨ho, hv, hn, _⟩ := (flags_eq_iff s s').mp h
-  simp [openStmts, ho, hv, hn]
+  obtain ⟨ho, hv, hn, hc⟩ := (flags_eq_iff s s').mp h
+  simp [openStmts, ho, hv, hn, hc]
 
 theorem versionReadOk_congr (hd : List ExcKind) (s s' : OpenSt) (h : s.flags = s'.flags) :
     versionReadOk hd s = versionReadOk hd s' := by
